@@ -250,23 +250,24 @@ def addMem (s : Sys) (addr : Nat) (size : BreakSize) (cond : BreakCondition) : R
        { s1 with wps := s1.wps ++ [{ num := s1.nextWp, hw := hw }], last := some st, nextWp := s1.nextWp + 1 })
 
 /-- `Watchpoint::from_dqe` + `WatchpointRegistry::add`, in the order of the code: duplicate-address check, size
-check, companion breakpoint **created and enabled**, then `hw.enable` — whose failure returns the error with the
-companion left behind (the counter `GLOBAL_WP_COUNTER` is only advanced on success). -/
+check, `hw.enable` (a debug register is taken first: when none is free the request is refused with nothing done),
+then the companion breakpoint is created and enabled (the counter `GLOBAL_WP_COUNTER` is only advanced on success).
+Before the repair the companion was created first and a refusal by `hw.enable` left it behind. -/
 def addExpr (s : Sys) (expr addr bytes : Nat) (cond : BreakCondition) (scopeEnd : Option Nat) : Res × Sys :=
   if observed s.main addr then (.refused .alreadyObserved, s)
   else if bytes > 255 then (.refused .wrongSize, s)
   else match BreakSize.ofBytes? bytes with
     | none => (.refused .wrongSize, s)
     | some size =>
-      let (comp, s0) := match scopeEnd with
-        | some a => let (n, s') := addCompanion s a; (some n, s')
-        | none => (none, s)
-      match hwEnable s0 { addr, size, cond } with
-      | .error e => (.refused e, s0)
+      match hwEnable s { addr, size, cond } with
+      | .error e => (.refused e, s)
       | .ok (st, hw, s1) =>
-        (.added s1.nextWp (hw.reg.getD 0),
-         { s1 with wps := s1.wps ++ [{ num := s1.nextWp, hw := hw, expr := some expr, companion := comp }],
-                   last := some st, nextWp := s1.nextWp + 1 })
+        let (comp, s2) := match scopeEnd with
+          | some a => let (n, s') := addCompanion s1 a; (some n, s')
+          | none => (none, s1)
+        (.added s2.nextWp (hw.reg.getD 0),
+         { s2 with wps := s2.wps ++ [{ num := s2.nextWp, hw := hw, expr := some expr, companion := comp }],
+                   last := some st, nextWp := s2.nextWp + 1 })
 
 def rmRes : Option (Option Nat × Sys) → Sys → Res × Sys
   | some (n, s'), _ => (.removed n, s')
